@@ -3,6 +3,7 @@ package vquery
 import (
 	"fmt"
 	"math/rand"
+	"sort"
 	"strings"
 )
 
@@ -122,20 +123,20 @@ const (
 	vIndexed = iota // dolt, indexed tables (voices 1 and 2)
 	vTwin           // dolt, keyless twin without any index (voice 3)
 	vRef            // go-mysql-server memory engine (voice 4)
+	vRefTwin        // go-mysql-server memory engine, keyless unindexed copies (voice 4u)
 )
 
 func (q *query) tableRef(voice, a int) string {
 	t := q.schema.Tables[q.Tables[a]]
 	name := t.Name
-	switch voice {
-	case vTwin:
+	if voice == vTwin || voice == vRefTwin {
 		name += "_u"
-	case vRef:
-		if q.AsOf {
-			name = "`" + q.schema.DB + "_old`." + name
-		}
 	}
-	if q.AsOf && voice != vRef {
+	ref := voice == vRef || voice == vRefTwin
+	if ref && q.AsOf {
+		name = "`" + q.schema.DB + "_old`." + name
+	}
+	if q.AsOf && !ref {
 		name += " as of 'v1'"
 	}
 	return name + " " + aliasNames[a]
@@ -155,7 +156,7 @@ func (q *query) selText(s selExpr) string {
 func (q *query) sql(voice int) string {
 	var b strings.Builder
 	b.WriteString("select ")
-	if q.Hint != "" && voice != vTwin {
+	if q.Hint != "" && voice != vTwin && voice != vRefTwin {
 		b.WriteString("/*+ " + q.Hint + " */ ")
 	}
 	for i, s := range q.Select {
@@ -219,8 +220,79 @@ func (q *query) sql(voice int) string {
 	return b.String()
 }
 
+func kindName(c *colSpec) string {
+	switch c.Kind {
+	case kInt:
+		return "int"
+	case kDec:
+		return "decimal"
+	case kFloat:
+		return "float"
+	case kDate:
+		return "date"
+	case kDatetime:
+		return "datetime"
+	case kStr:
+		if c.ci() {
+			return "str_ci"
+		}
+		return "str_bin"
+	case kBin:
+		return "varbinary"
+	}
+	return "enum"
+}
+
+func (q *query) predKinds(p pred, into map[string]bool) {
+	switch p := p.(type) {
+	case *atom:
+		into[kindName(q.schema.Tables[q.Tables[p.A]].Cols[p.C])] = true
+	case *boolOp:
+		for _, k := range p.Kids {
+			q.predKinds(k, into)
+		}
+	}
+}
+
+// signature names the column kinds the query's join keys (joins) or filters (other kinds) touch; it is part of
+// the violation key so that distinct defect classes get distinct keys.
+func (q *query) signature() string {
+	set := map[string]bool{}
+	if len(q.Tables) > 1 {
+		for _, e := range q.On {
+			set[kindName(q.schema.Tables[q.Tables[0]].Cols[e.LC])] = true
+		}
+	} else {
+		q.predKinds(q.Where, set)
+	}
+	var names []string
+	for k := range set {
+		names = append(names, k)
+	}
+	sort.Strings(names)
+	switch {
+	case len(names) == 0:
+		return "nofilter"
+	case len(names) > 2:
+		return "mixed"
+	}
+	return strings.Join(names, "+")
+}
+
 // decidable reports whether the brute-force evaluator (voice 5) decides this query.
 func (q *query) decidable() bool {
+	if len(q.On) > 1 {
+		for _, e := range q.On {
+			if e.NullSafe {
+				return false // go-mysql-server's handling of <=> mixed with = in one join condition is not modelled
+			}
+		}
+	}
+	for _, e := range q.On {
+		if e.NullSafe && q.schema.Tables[q.Tables[0]].Cols[e.LC].ci() {
+			return false
+		}
+	}
 	return !predUndecided(q.Where) && !predUndecided(q.OnExtra)
 }
 
@@ -304,6 +376,14 @@ func (g *qgen) atomOn(q *query, a, c int) *atom {
 	}
 	for _, l := range at.Lits {
 		if l.Odd {
+			at.Und = true
+		}
+	}
+	if col.ci() {
+		switch at.Op {
+		case "in", "notin", "<=>":
+			// go-mysql-server evaluates IN / <=> on strings bytewise regardless of the collation (shared by every
+			// engine voice); the harness does not decide these
 			at.Und = true
 		}
 	}
@@ -421,7 +501,9 @@ func (g *qgen) aggregates(q *query, aliases []int) []selExpr {
 			}
 			out = append(out, selExpr{Agg: []string{"min", "max"}[g.r.Intn(2)], A: a, C: c})
 		default:
-			if col.Kind != kInt && col.Kind != kDec && col.Kind != kFloat {
+			// SUM is accumulated in a double by the engine: only over columns whose values keep such a sum
+			// independent of the summation order (no 64-bit integers, no wide decimals)
+			if !(col.Kind == kFloat || (col.Kind == kInt && !strings.HasPrefix(col.SQLType, "bigint")) || col.SQLType == "decimal(10,3)") {
 				continue
 			}
 			out = append(out, selExpr{Agg: "sum", A: a, C: c})
@@ -451,6 +533,17 @@ func (g *qgen) join(q *query) {
 		if p2 != p {
 			q.On = append(q.On, joinEq{LC: p2.l, RC: p2.r})
 		}
+	}
+	// go-mysql-server's hash join compares multi-column keys containing case-insensitive strings bytewise (its result
+	// then depends on the plan, in the reference engine too): such conditions are not generated
+	for _, e := range q.On {
+		if ta.Cols[e.LC].ci() && len(q.On) > 1 {
+			q.On = q.On[:1]
+			break
+		}
+	}
+	if ta.Cols[q.On[0].LC].ci() {
+		q.On[0].NullSafe = false
 	}
 	if g.r.Intn(4) == 0 {
 		q.OnExtra = g.atom(q, g.r.Intn(2))
